@@ -160,6 +160,8 @@ func (q *queue) isClosed() bool {
 func (q *queue) Close() {
 	q.closeOnce.Do(func() {
 		q.mu.Lock()
+		// mark the queue closed before sweeping the topics, so that a topic first used during the sweep is created closed
+		atomic.StoreInt32(&q.isClose, 1)
 		for topic, ch := range q.chanSubs {
 			if ch.isClose == 0 {
 				select {
@@ -177,7 +179,6 @@ func (q *queue) Close() {
 		q.mu.Unlock()
 		q.done <- struct{}{}
 		close(q.done)
-		atomic.StoreInt32(&q.isClose, 1)
 		qlog.Info("queue module closed")
 	})
 }
@@ -187,6 +188,12 @@ func (q *queue) chanSub(topic string) *chanSub {
 	defer q.mu.Unlock()
 	_, ok := q.chanSubs[topic]
 	if !ok {
+		if q.isClosed() {
+			done := make(chan struct{})
+			close(done)
+			q.chanSubs[topic] = &chanSub{isClose: 1, done: done}
+			return q.chanSubs[topic]
+		}
 		q.chanSubs[topic] = &chanSub{
 			high:    make(chan *Message, defaultChanBuffer),
 			low:     make(chan *Message, defaultLowChanBuffer),
